@@ -873,10 +873,29 @@ async fn drive(s: &Value, ctx: &Ctx, rng: &mut Rng) -> Result<Outcome, String> {
         "tail" => {
             let honoured = eff.contains("nomination") || eff.contains("selected_pair");
             if honoured {
-                counters.push(("use_candidate_after_message_integrity_honoured(info)", 1));
+                counters.push(("use_candidate_after_message_integrity_honoured", 1));
             }
             seen.push(("tail_effect(info)", format!("{}:{}", config_of(s), eff)));
-            Verdict::Held
+            // The request itself is authentic but carries NO USE-CANDIDATE inside the part that
+            // MESSAGE-INTEGRITY covers; the nominating attribute was appended behind it by a third
+            // party. A controlled agent never nominates on its own, so a selected pair / completed
+            // nomination here was caused by the unauthenticated attribute. (For a controlling agent
+            // the same effect can be its own doing, so it is only counted there.)
+            if honoured && scen_str(s, "role") == "controlled" {
+                Verdict::violated(
+                    format!(
+                        "req=authentic+unauthenticated_tail(use_candidate),sock={},role=controlled,effect={}",
+                        sockk, eff
+                    ),
+                    format!(
+                        "USE-CANDIDATE appended behind MESSAGE-INTEGRITY (not covered by it) of an authentic non-nominating check made a controlled agent change its tuple: {eff} ({})",
+                        config_of(s)
+                    ),
+                    detail.clone(),
+                )
+            } else {
+                Verdict::Held
+            }
         }
         "null" => {
             if eff.is_empty() {
